@@ -121,7 +121,8 @@ def r_floordiv(a, b):
     if _near_integer_ratio(a, b):
         raise Fragile
     r = np.floor(a.si / b.si)
-    return RV(r, ONE, err=np.zeros(np.shape(r)))
+    # the integer may come back through a unit coefficient that is 1 only up to rounding (km/hr x s / mile)
+    return RV(r, ONE, err=8 * EPS * np.abs(r))
 
 
 def r_mod(a, b):
